@@ -116,7 +116,7 @@ class GdbMode(_Base):
         return 120 if tier == 'quick' else 14 * 1000
 
     def gen(self, d, tier):
-        prof = dict(reuse=0.7, server_reuse=0.5, weights=dict(delete=16, bind=14, message=40, server_event=10, sync=6, enum=4, retype=8, twins=10, server_retype=6))
+        prof = dict(reuse=0.7, server_reuse=0.5, no_unseen_registry=True, weights=dict(delete=16, bind=14, message=40, server_event=10, sync=6, enum=4, retype=8, twins=10, server_retype=6, midsession=7))
         if d.chance(0.6):
             specs = histgen.history(d, nconn=d.int(1, 2), nmsg=d.int(5, 36), tagged=True, profile=prof)
         else:
